@@ -256,6 +256,87 @@ def evaluate(muts, root, jobs=1, variant=None):
     return out
 
 
+SEEDED_DIR = os.path.join(os.path.dirname(os.path.dirname(os.path.abspath(__file__))), "seeded")
+
+
+def _apply_patch_in_memory(patch_text, root):
+    """Apply a unified diff to the files of `root` without touching them: returns {rel: new source} or None."""
+    import re
+    import shutil
+    import subprocess
+    import tempfile
+
+    files = re.findall(r"^\+\+\+ b/(\S+)", patch_text, flags=re.M)
+    if not files:
+        return None
+    tmp = tempfile.mkdtemp(prefix="pmcsa-seed-")
+    try:
+        for rel in files:
+            src = os.path.join(root, rel)
+            dst = os.path.join(tmp, rel)
+            os.makedirs(os.path.dirname(dst), exist_ok=True)
+            if os.path.exists(src):
+                shutil.copy(src, dst)
+        r = subprocess.run(["patch", "-p1", "-s", "-f"], input=patch_text, text=True, cwd=tmp, capture_output=True)
+        if r.returncode != 0:
+            return None
+        return {rel: open(os.path.join(tmp, rel), encoding="utf8").read() for rel in files if os.path.exists(os.path.join(tmp, rel))}
+    finally:
+        shutil.rmtree(tmp, ignore_errors=True)
+
+
+def _run_seed(args):
+    sid, prop, root = args
+    import json
+    from .main import run_property
+
+    d = os.path.join(SEEDED_DIR, sid)
+    try:
+        patch_text = open(os.path.join(d, "patch.diff"), encoding="utf8").read()
+    except OSError:
+        return sid, "skipped", []
+    overlay = _apply_patch_in_memory(patch_text, root or model.REPO)
+    if overlay is None:
+        return sid, "skipped", []
+    try:
+        code, chk = run_property(prop, "quick", 0, root=root, overlay=overlay, write=False)
+        return sid, "ok", sorted({f.key for f in chk.findings()})
+    except model.AnalysisError as e:
+        return sid, "analysis-error: %s" % str(e)[:120], []
+    except Exception as e:
+        return sid, "internal-error: %r" % (e,), []
+
+
+def seeded_corpus(prop, root):
+    """Regression corpus: seeded changes that this property's check is recorded to report must still be reported."""
+    import json
+
+    work = []
+    if not os.path.isdir(SEEDED_DIR):
+        return dict(total=0, still_reported=0, skipped=0, lost=[])
+    for sid in sorted(os.listdir(SEEDED_DIR)):
+        mp = os.path.join(SEEDED_DIR, sid, "meta.json")
+        if not os.path.exists(mp):
+            continue
+        meta = json.load(open(mp))
+        if meta.get("detection", {}).get(prop) == "violation":
+            work.append((sid, prop, root))
+    if not work:
+        return dict(total=0, still_reported=0, skipped=0, lost=[])
+    base = _baseline_keys(prop, root) or set()
+    with ProcessPoolExecutor(min(16, len(work))) as ex:
+        res = list(ex.map(_run_seed, work))
+    lost, skipped, ok = [], 0, 0
+    for sid, status, keys in res:
+        if status == "skipped":
+            skipped += 1
+        elif [k for k in keys if k not in base]:
+            ok += 1
+        else:
+            lost.append(dict(id=sid, status=status))
+    return dict(total=len(work), still_reported=ok, skipped=skipped, lost=lost)
+
+
 def non_vacuity(prop, root):
     muts = [mu for mu in MUTANTS if mu["prop"] == prop]
     res = evaluate(muts, root, jobs=min(8, max(1, len(muts))))
@@ -272,6 +353,7 @@ def non_vacuity(prop, root):
         silent_ok=len([r for r in sil if r["verdict"] == "silent"]),
         noisy=[dict(id=r["id"], keys=r["keys"]) for r in sil if r["verdict"].startswith("NOISY")],
         details=[{k: r[k] for k in ("id", "verdict", "keys")} for r in res],
+        seeded=seeded_corpus(prop, root),
     )
 
 
